@@ -22,6 +22,13 @@
 // every account, balance >= each locked amount, no balance lowered except by
 // the account's own transfer, locks moved only (and only in the right
 // direction) by lock / unlock calls of that account, and conservation.
+//
+// Account names: the ordinary events name accounts by canonical addresses. The
+// name sweep and the pass "names" (names.go) add an alphabet of other spellings
+// of those addresses and of names that are no account at all, as Transfer
+// receiver, Lock / UnLock account and TDPoS candidate. The oracles work on every
+// record stored under the balance prefix (the bucket is scanned), whatever name
+// it is stored under.
 package c19
 
 import (
@@ -79,16 +86,16 @@ var lockTypes = []string{typeOrdinary, typeTdpos}
 var accounts = []string{"a", "b", "c"}
 
 func keyName(a string) string { return strings.ToUpper(a) }
-func addrOf(a string) string  { return world.Addr(keyName(a)) }
-
-func nameOfAddr(addr string) string {
-	for _, a := range accounts {
-		if addrOf(a) == addr {
-			return a
-		}
+func addrOf(a string) string {
+	k, ok := world.Keys[keyName(a)]
+	if !ok || len(a) != 1 {
+		panic("c19: no such account " + strconv.Quote(a))
 	}
-	return "?" + addr
+	return k.Address
 }
+
+// nameOfAddr renders the account name of a stored record for messages.
+func nameOfAddr(addr string) string { return showName(addr) }
 
 // ---------------------------------------------------------------------------
 // stub network for NewTdposConsensus (only PeerInfo is used by the non-BFT path)
@@ -365,8 +372,10 @@ type inst struct {
 	cnt      *counters
 
 	spellDepth int              // valid alternative spellings are probed after histories up to this length
+	nameDepth  int              // the name sweep is offered after histories up to this length
 	applied    []string         // events applied so far
-	probeClass string           // non-empty: this instance executes one sweep probe of that amount class
+	probeClass string           // non-empty: this instance executes one sweep probe of that amount / name class
+	probeTag   string           // "probe" (amount sweep) or "nprobe" (name sweep)
 	sweepViol  []core.Violation // replay mode only: violations found by the probes of a sweep
 }
 
@@ -377,7 +386,8 @@ func worldConfig() world.Config {
 	return cfg
 }
 
-func newInst(cnt *counters, col *collector, alpha string, spellDepth ...int) *inst {
+// newInst: depths = [spellDepth [, nameDepth]].
+func newInst(cnt *counters, col *collector, alpha string, depths ...int) *inst {
 	vhook.Capture()
 	w, err := world.New(worldConfig(), nil)
 	if err != nil {
@@ -386,9 +396,12 @@ func newInst(cnt *counters, col *collector, alpha string, spellDepth ...int) *in
 	if err := registerTdpos(w); err != nil {
 		core.HarnessError("c19: tdpos: %v", err)
 	}
-	i := &inst{w: w, tip: w.Genesis, cnt: cnt, col: col, alpha: alpha, spellDepth: 1 << 20}
-	if len(spellDepth) == 1 {
-		i.spellDepth = spellDepth[0]
+	i := &inst{w: w, tip: w.Genesis, cnt: cnt, col: col, alpha: alpha, spellDepth: 1 << 20, nameDepth: 1 << 20}
+	if len(depths) >= 1 {
+		i.spellDepth = depths[0]
+	}
+	if len(depths) >= 2 {
+		i.nameDepth = depths[1]
 	}
 	for k := 0; k < premine; k++ {
 		if _, _, err := i.mine(nil); err != nil {
@@ -442,7 +455,7 @@ func big10(s string) *big.Int {
 
 // amount resolves a symbolic amount for account acc and lock type lt ("" for transfers).
 func (i *inst) amount(tok, acc, lt string) *big.Int {
-	b := i.cur.bal(addrOf(acc))
+	b := i.cur.bal(nameStr(acc))
 	switch tok {
 	case "all", "all+1":
 		n := new(big.Int).Set(b.Total)
@@ -485,8 +498,8 @@ func (i *inst) amountArg(s *step, tok, acc, lt string) {
 			s.Amt = n
 		}
 	case tok == "-all":
-		s.Amt = new(big.Int).Neg(i.cur.bal(addrOf(acc)).Total)
-		s.Raw = "-" + i.cur.bal(addrOf(acc)).Total.String()
+		s.Amt = new(big.Int).Neg(i.cur.bal(nameStr(acc)).Total)
+		s.Raw = "-" + i.cur.bal(nameStr(acc)).Total.String()
 	default:
 		s.Amt = i.amount(tok, acc, lt)
 		s.Raw = s.Amt.String()
@@ -520,7 +533,7 @@ func (i *inst) request(ev string) (*step, *protos.InvokeRequest) {
 		s.From, s.To = ft[0], ft[1]
 		i.amountArg(s, f[2], s.From, "")
 		req.ContractName, req.MethodName = "$govern_token", "Transfer"
-		req.Args["to"] = []byte(addrOf(s.To))
+		req.Args["to"] = []byte(nameStr(s.To))
 		req.Args["amount"] = []byte(s.Raw)
 	case "lock!", "unlock!": // direct user call lock!:a:amt | lock!:initiator>account:locktype:amt
 		s.From, s.Target, s.LT = f[1], f[1], typeOrdinary
@@ -532,7 +545,7 @@ func (i *inst) request(ev string) (*step, *protos.InvokeRequest) {
 		i.amountArg(s, tok, s.Target, s.LT)
 		req.ContractName = "$govern_token"
 		req.MethodName = map[string]string{"lock!": "Lock", "unlock!": "UnLock"}[s.Kind]
-		req.Args["from"] = []byte(addrOf(s.Target))
+		req.Args["from"] = []byte(nameStr(s.Target))
 		req.Args["amount"] = []byte(s.Raw)
 		req.Args["lock_type"] = []byte(s.LT)
 	case "propose": // propose:a
@@ -550,31 +563,39 @@ func (i *inst) request(ev string) (*step, *protos.InvokeRequest) {
 		s.From = f[2]
 		req.ContractName, req.MethodName = "$proposal", "Thaw"
 		req.Args["proposal_id"] = []byte(f[1])
-	case "nominate": // nominate:a:amt (self nomination)
+	case "nominate": // nominate:a:amt (self nomination) | nominate:initiator>candidate:amt
 		s.From = f[1]
+		cand := s.From
+		if it := strings.Split(f[1], ">"); len(it) == 2 {
+			s.From, s.Target, cand = it[0], it[1], it[1]
+		}
 		i.amountArg(s, f[2], s.From, typeTdpos)
 		req.ContractName, req.MethodName = bktTdpos, "nominateCandidate"
-		req.Args["candidate"] = []byte(addrOf(s.From))
+		req.Args["candidate"] = []byte(nameStr(cand))
 		req.Args["amount"] = []byte(s.Raw)
 		req.Args["height"] = []byte(hsel("tip"))
 	case "tvote": // tvote:voter:cand:amt
 		s.From, s.To = f[1], f[2]
 		i.amountArg(s, f[3], s.From, typeTdpos)
 		req.ContractName, req.MethodName = bktTdpos, "voteCandidate"
-		req.Args["candidate"] = []byte(addrOf(s.To))
+		req.Args["candidate"] = []byte(nameStr(s.To))
 		req.Args["amount"] = []byte(s.Raw)
 		req.Args["height"] = []byte(hsel("tip"))
 	case "trevoke": // trevoke:voter:cand:amt:tip|old
 		s.From, s.To = f[1], f[2]
 		i.amountArg(s, f[3], s.From, typeTdpos)
 		req.ContractName, req.MethodName = bktTdpos, "revokeVote"
-		req.Args["candidate"] = []byte(addrOf(s.To))
+		req.Args["candidate"] = []byte(nameStr(s.To))
 		req.Args["amount"] = []byte(s.Raw)
 		req.Args["height"] = []byte(hsel(f[4]))
-	case "unnominate": // unnominate:a:tip|old
+	case "unnominate": // unnominate:a:tip|old | unnominate:initiator>candidate:tip|old
 		s.From = f[1]
+		cand := s.From
+		if it := strings.Split(f[1], ">"); len(it) == 2 {
+			s.From, s.Target, cand = it[0], it[1], it[1]
+		}
 		req.ContractName, req.MethodName = bktTdpos, "revokeNominate"
-		req.Args["candidate"] = []byte(addrOf(s.From))
+		req.Args["candidate"] = []byte(nameStr(cand))
 		req.Args["height"] = []byte(hsel(f[2]))
 	default:
 		panic("c19: bad event " + ev)
@@ -585,6 +606,9 @@ func (i *inst) request(ev string) (*step, *protos.InvokeRequest) {
 func (i *inst) Apply(ev string) string {
 	if ev == "sweep" {
 		return i.sweep()
+	}
+	if ev == "names" {
+		return i.nameSweep()
 	}
 	i.applied = append(i.applied, ev)
 	i.seq++
@@ -714,13 +738,30 @@ func (i *inst) proposalIDs() []string {
 }
 
 func (i *inst) Enabled() []string {
+	return i.withSweeps(i.enabledCalls())
+}
+
+// withSweeps appends the two sweeps (self loops): the amount sweep in every
+// state, the name sweep after histories of at most nameDepth calls.
+func (i *inst) withSweeps(evs []string) []string {
+	evs = append(evs, "sweep")
+	if len(i.applied) <= i.nameDepth {
+		evs = append(evs, "names")
+	}
+	return evs
+}
+
+func (i *inst) enabledCalls() []string {
 	t := i.cur
 	if !t.initialised() {
 		// before initialisation every other call must fail: a few representatives
-		return []string{"init", "xfer:a>b:1", "propose:a", "nominate:a:1", "tick", "sweep"}
+		return []string{"init", "xfer:a>b:1", "propose:a", "nominate:a:1", "tick"}
 	}
-	if i.alpha == "proposal" {
-		return append(i.enabledProposal(), "sweep")
+	switch i.alpha {
+	case "proposal":
+		return i.enabledProposal()
+	case "names":
+		return i.enabledNames()
 	}
 	evs := []string{"init", "tick"}
 	for _, from := range accounts {
@@ -770,7 +811,7 @@ func (i *inst) Enabled() []string {
 		// nothing nominated yet: these must fail
 		evs = append(evs, "tvote:b:a:1", "trevoke:b:a:1:tip", "unnominate:a:tip")
 	}
-	evs = append(evs, "lock!:a:500", "unlock!:a:500", "sweep")
+	evs = append(evs, "lock!:a:500", "unlock!:a:500")
 	return evs
 }
 
@@ -940,7 +981,7 @@ func (i *inst) sweep() string {
 			continue
 		}
 		accepted++
-		i.runProbe(p, before)
+		i.runProbe(p, before, "probe")
 	}
 	// what the pre-executions left behind (nothing, if a refused call leaves no trace)
 	i.cur = readTables(i.w)
@@ -952,7 +993,7 @@ func (i *inst) sweep() string {
 
 // runProbe executes one call that pre-execution accepted as an ordinary
 // transition on a fresh instance and applies the oracles to it.
-func (i *inst) runProbe(p probe, before string) {
+func (i *inst) runProbe(p probe, before, tag string) {
 	j := newInst(i.cnt, nil, i.alpha)
 	defer j.Close()
 	for _, e := range i.applied {
@@ -961,7 +1002,7 @@ func (i *inst) runProbe(p probe, before string) {
 	if k := j.Key(); k != before {
 		core.HarnessError("c19: nondeterminism: replaying %v for probe %q reached another state", i.applied, p.Ev)
 	}
-	j.probeClass = p.Class
+	j.probeClass, j.probeTag = p.Class, tag
 	j.Apply(p.Ev)
 	hist := append(append([]string(nil), i.applied...), p.Ev)
 	vs := j.check(hist)
@@ -998,17 +1039,37 @@ func (i *inst) check(hist []string) []core.Violation {
 	}
 	pre, post := i.pre, i.cur
 	var out []core.Violation
+	// a call that names an account by a non-canonical spelling (name alphabet):
+	// its violation keys carry the suffix .alias_name
+	alias := isAliasTok(s.To) || isAliasTok(s.Target)
 	add := func(key, summary, expected, observed string) {
+		if alias {
+			if !strings.Contains(key, "alias_name") {
+				key += ".alias_name"
+			}
+			summary += fmt.Sprintf(" [account-name arguments: %v]", namesUsed([]string{s.Ev}))
+		}
 		if len(s.Fired) > 0 {
 			summary += fmt.Sprintf(" (the block of %s also ran the due timer task of proposal %v)", s.Ev, s.Fired)
 		}
 		out = append(out, core.Violation{Key: key, Summary: fmt.Sprintf("after %v: %s", hist, summary), Case: caseOf(hist), Expected: expected, Observed: observed})
 	}
-	if s.Kind == "sweep" {
+	if s.Kind == "sweep" || s.Kind == "names" {
 		// the pre-executions of the sweep committed nothing
-		i.cnt.add("sweep:states")
+		i.cnt.add(s.Kind + ":states")
+		if s.Kind == "names" {
+			// vacuity guard: swept states in which a record exists under a name
+			// that is no canonical address
+			aliases()
+			for _, addr := range unionAddrs(post, post) {
+				if tok, ok := aliasByID[addr]; !ok || isAliasTok(tok) {
+					i.cnt.add("names:states_with_alias_records")
+					break
+				}
+			}
+		}
 		if pre.canon() != post.canon() {
-			add("c19.failed_call_left_trace.sweep", "the pre-executions of the amount sweep changed the tables", pre.canon(), post.canon())
+			add("c19.failed_call_left_trace."+s.Kind, "the pre-executions of the "+map[string]string{"sweep": "amount", "names": "name"}[s.Kind]+" sweep changed the tables", pre.canon(), post.canon())
 		}
 		return append(out, i.sweepViol...)
 	}
@@ -1027,9 +1088,9 @@ func (i *inst) check(hist []string) []core.Violation {
 		if outcome == "rejected" {
 			outcome = "refused"
 		}
-		i.cnt.add("probe:" + s.Kind + ":" + i.probeClass + ":" + outcome)
+		i.cnt.add(i.probeTag + ":" + s.Kind + ":" + i.probeClass + ":" + outcome)
 		if s.Committed && pre.canon() != post.canon() {
-			i.cnt.add("probe_changed_state:" + i.probeClass)
+			i.cnt.add(i.probeTag + "_changed_state:" + i.probeClass)
 		}
 	} else {
 		i.cnt.add(s.Kind + ":" + outcome)
@@ -1046,6 +1107,15 @@ func (i *inst) check(hist []string) []core.Violation {
 			if json.Unmarshal([]byte(v), &pr) == nil {
 				i.cnt.add("proposal_status:" + pr.Status)
 			}
+		}
+	}
+
+	if s.Committed && s.Kind == "xfer" && alias {
+		// vacuity guard: did the receiving name have a record before the call
+		if _, had := pre.Bal[nameStr(s.To)]; had {
+			i.cnt.add("names:transfers_to_existing_alias_record")
+		} else {
+			i.cnt.add("names:transfers_to_new_alias_record")
 		}
 	}
 
@@ -1083,6 +1153,9 @@ func (i *inst) check(hist []string) []core.Violation {
 				if after.Cmp(before) > 0 {
 					key = "c19.self_transfer_mints"
 				}
+			}
+			if s.Kind == "xfer" && alias && after.Cmp(before) > 0 {
+				key = "c19.transfer_to_alias_name_mints"
 			}
 			add(key, fmt.Sprintf("%s changed the sum of all balances from %s to %s (total supply %s)", s.Ev, before, after, supply),
 				"sum of total_balance = "+before.String(), "sum of total_balance = "+after.String())
@@ -1152,7 +1225,7 @@ func (i *inst) check(hist []string) []core.Violation {
 				if s.From != "" && addr == addrOf(s.From) {
 					role = "self"
 				}
-				if s.To != "" && addr == addrOf(s.To) && (s.Kind == "xfer") {
+				if s.To != "" && addr == nameStr(s.To) && (s.Kind == "xfer") {
 					role = "receiver"
 				}
 				key := fmt.Sprintf("c19.lock_changed_by.%s.%s.%s", s.Kind, role, lt)
@@ -1238,9 +1311,11 @@ func (i *inst) check(hist []string) []core.Violation {
 		switch {
 		case s.From != "" && addr == addrOf(s.From):
 			return "self"
-		case s.Kind == "xfer" && s.To != "" && addr == addrOf(s.To):
+		case s.Kind == "xfer" && s.To != "" && addr == nameStr(s.To):
 			return "receiver"
-		case s.Target != "" && addr == addrOf(s.Target):
+		case s.Target != "" && addr == nameStr(s.Target):
+			return "named"
+		case s.To != "" && addr == nameStr(s.To):
 			return "named"
 		}
 		return "other"
@@ -1291,9 +1366,21 @@ func (i *inst) check(hist []string) []core.Violation {
 		}
 	}
 
-	// 4. the state's query agrees with the table
+	// 4. the state's query agrees with the table: for the accounts of the
+	// alphabet and for every other name a record is stored under
+	queried := map[string]bool{}
+	var qnames []string
 	for _, a := range accounts {
-		addr := addrOf(a)
+		queried[addrOf(a)] = true
+		qnames = append(qnames, addrOf(a))
+	}
+	for _, addr := range unionAddrs(post, post) {
+		if !queried[addr] {
+			qnames = append(qnames, addr)
+		}
+	}
+	for _, addr := range qnames {
+		a := nameOfAddr(addr)
 		got, err := i.w.State.QueryAccountGovernTokenBalance(addr)
 		rec, has := post.Bal[addr]
 		switch {
@@ -1350,8 +1437,12 @@ func caseOf(hist []string) map[string]interface{} {
 			xfer = true
 		}
 	}
-	return map[string]interface{}{"history": append([]string(nil), hist...), "quotas": map[string]int{"a": quotaA, "b": quotaB},
+	c := map[string]interface{}{"history": append([]string(nil), hist...), "quotas": map[string]int{"a": quotaA, "b": quotaB},
 		"uses_height_before_tip": stale, "after_earlier_transfer": xfer}
+	if nu := namesUsed(hist); len(nu) > 0 {
+		c["account_name_arguments"] = nu // token -> the string sent (Go-quoted)
+	}
+	return c
 }
 
 // ---------------------------------------------------------------------------
@@ -1366,23 +1457,34 @@ func run(tier core.Tier) *core.Report {
 	// zero / alternative spellings of valid amounts are legitimately accepted, so
 	// each of them costs a full transition: swept after histories up to this length
 	spell, spellDeep := 2, 3
+	// the name sweep: nearly every transfer to an unusual name is legitimately
+	// accepted (a fresh account), so it is swept after histories up to this length
+	// (full, proposal, names pass); nmDepth is the bound of the pass "names"
+	// (quick: the proposal pass' states after <= 2 calls are states of the full
+	// pass, which sweeps them)
+	nameFull, nameDeep, nameNames, nmDepth := 2, 1, 2, 3
 	if tier == core.Thorough {
 		depth, deep = 5, 7
 		spell, spellDeep = 3, 4
+		nameFull, nameDeep, nameNames, nmDepth = 2, 3, 3, 4
 	}
 	cnt := &counters{m: map[string]int{}}
 	col := &collector{m: map[string]*found{}}
-	cfg := xplore.Config{Name: "c19", New: func() xplore.Instance { return newInst(cnt, col, "full", spell) }, MaxDepth: depth, Report: rep}
+	cfg := xplore.Config{Name: "c19", New: func() xplore.Instance { return newInst(cnt, col, "full", spell, nameFull) }, MaxDepth: depth, Report: rep}
 	// deeper pass over the proposal life cycle (reduced alphabet)
-	cfg2 := xplore.Config{Name: "c19/proposal", New: func() xplore.Instance { return newInst(cnt, col, "proposal", spellDeep) }, MaxDepth: deep, Report: rep}
-	var st, st2 xplore.Stats
+	cfg2 := xplore.Config{Name: "c19/proposal", New: func() xplore.Instance { return newInst(cnt, col, "proposal", spellDeep, nameDeep) }, MaxDepth: deep, Report: rep}
+	// pass over histories in which records under alias names exist (reduced alphabet)
+	cfg3 := xplore.Config{Name: "c19/names", New: func() xplore.Instance { return newInst(cnt, col, "names", spell, nameNames) }, MaxDepth: nmDepth, Report: rep}
+	var st, st2, st3 xplore.Stats
 	if tier == core.Thorough {
-		// the cheaper pass first: the full pass may use up the budget
+		// the cheaper passes first: the full pass may use up the budget
+		st3 = xplore.Explore(cfg3)
 		st2 = xplore.Explore(cfg2)
 		st = xplore.Explore(cfg)
 	} else {
 		st = xplore.Explore(cfg)
 		st2 = xplore.Explore(cfg2)
+		st3 = xplore.Explore(cfg3)
 	}
 	// one concrete trace with its observations as the first sample
 	sample := []string{"init", "propose:a", "vote:1:a:all", "vote:1:b:500", "tick", "xfer:a>b:all"}
@@ -1392,8 +1494,13 @@ func run(tier core.Tier) *core.Report {
 	sample2 := []string{"init", "nominate:b:all", "xfer:a>b:=-1", "vote:1:a:=+500", "nominate:a:=18446744073709551617", "xfer:b>a:=0x1f4"}
 	obs2, _ := xplore.Replay(func() xplore.Instance { return newInst(&counters{m: map[string]int{}}, nil, "full") }, sample2)
 	rep.Sample(map[string]interface{}{"history": sample2, "observations": obs2, "note": "'=<literal>' sends the literal as the amount argument"})
+	// and one with account names of the name alphabet
+	sample3 := []string{"init", "xfer:a>a~sp_t:500", "xfer:a>a~sp_t:1", "xfer:b>a~lower:av", "nominate:a>a~last:1", "tvote:b:a~last:1", "xfer:a>~empty:1", "lock!:a>a~sp_t:ordinary:1"}
+	obs3, _ := xplore.Replay(func() xplore.Instance { return newInst(&counters{m: map[string]int{}}, nil, "full") }, sample3)
+	rep.Sample(map[string]interface{}{"history": sample3, "observations": obs3, "account_name_arguments": namesUsed(sample3), "note": "'<base>~<form>' / '~<abs>' send that spelling as the account-name argument (name_sweep.name_alphabet)"})
 	st.Fill(rep, "full.")
 	st2.Fill(rep, "proposal.")
+	st3.Fill(rep, "names.")
 	col.flush(rep)
 
 	cnt.mu.Lock()
@@ -1404,7 +1511,31 @@ func run(tier core.Tier) *core.Report {
 	sweepByKind, sweepByClass, sweepChanged := map[string]int{}, map[string]int{}, map[string]int{}
 	sweepCalls, sweepStates := 0, 0
 	sweepOutcome := map[string]int{}
+	// name sweep: the same
+	nameByKind, nameByClass, nameChanged, nameOutcome := map[string]int{}, map[string]int{}, map[string]int{}, map[string]int{}
+	nameCalls, nameStates := 0, 0
+	nameGuards := map[string]int{"states_with_alias_records": 0, "transfers_to_existing_alias_record": 0, "transfers_to_new_alias_record": 0}
 	for k, v := range cnt.m {
+		if strings.HasPrefix(k, "nprobe:") { // nprobe:<kind>:<class>:<outcome>
+			f := strings.Split(k, ":")
+			nameByKind[f[1]+":"+f[3]] += v
+			nameByClass[f[2]+":"+f[3]] += v
+			nameOutcome[f[3]] += v
+			nameCalls += v
+			continue
+		}
+		if strings.HasPrefix(k, "nprobe_changed_state:") {
+			nameChanged[strings.TrimPrefix(k, "nprobe_changed_state:")] = v
+			continue
+		}
+		if k == "names:states" {
+			nameStates = v
+			continue
+		}
+		if strings.HasPrefix(k, "names:") {
+			nameGuards[strings.TrimPrefix(k, "names:")] = v
+			continue
+		}
 		if strings.HasPrefix(k, "proposal_status:") {
 			statuses[strings.TrimPrefix(k, "proposal_status:")] = v
 			continue
@@ -1450,8 +1581,18 @@ func run(tier core.Tier) *core.Report {
 	rep.Set("amount_sweep.calls_by_amount_class_and_outcome", sweepByClass)
 	rep.Set("amount_sweep.committed_calls_that_changed_the_tables_by_class", sweepChanged)
 	rep.Set("amount_sweep.rule", fmt.Sprintf("in EVERY state that the two passes expand (all histories shorter than the pass bound) the event 'sweep' sends every method that takes an amount - Transfer (full pass: from,to over {a,b,c}^2; proposal pass: a>b b>a a>a a>c c>a), $proposal.Vote (each existing proposal, or the missing id 1; voter a|b|c), TDPoS nominateCandidate (a|b|c), voteCandidate (voter a|b|c, candidate a|b), revokeVote (voter a|b, candidate a|b, tip | height before), direct $govern_token.Lock / UnLock (initiator a|b, account a|b, lock type ordinary|tdpos) - with every amount string of amount_alphabet ('-all' = minus the whole balance of the account whose tokens the call moves or locks, skipped when that is 0): classes negative, over_supply, malformed in every swept state, classes zero and spelling after histories of <= %d (full) / <= %d (proposal) calls. Propose, Thaw and revokeNominate take no amount. A call refused by pre-execution (sandbox, commits nothing) counts as rejected; a call it accepts is executed as an ordinary transition (VerifyTx, DoTx, block, PlayForMiner) on a fresh instance and judged by all oracles, among them per account: balance >= every locked amount, no balance lowered except by the account's own Transfer, locking calls never lower / unlocking calls never raise a locked amount, locks only moved by lock / unlock calls of that account, conservation. No amount is assumed to be refused", spell, spellDeep))
-	rep.Set("bound", fmt.Sprintf("pass 'full': all call sequences of length <= %d over Init, Transfer(from,to in {a,b,c fresh} incl. to=from; 0,1,500,1000,all,all+1 and, with locks, available / available+1), Propose(a|b), Vote(p,a|b;0,500,all), Thaw(p,a|b), block ticks (timer tasks: CheckVoteResult / Trigger), TDPoS nominate / vote / revokeVote / revokeNominate (1,500,all; revokes naming the tip or the height before it), direct Lock / UnLock, and as last call of every sequence each call of the amount sweep (amount_sweep.rule); pass 'proposal': length <= %d over Init, Transfer a<->b (500, all | available, available+1), Propose, Vote (500, all), Thaw, ticks, amount sweep last; genesis quotas a=%d b=%d; merged on the committed content of the governToken, proposal, timer and $tdpos buckets (+ height while timer tasks are pending)", depth, deep, quotaA, quotaB))
-	rep.Set("exhaustive", st.Completed && st2.Completed)
+	rep.Set("name_sweep.name_alphabet", nameAlphabetEvidence())
+	rep.Set("name_sweep.names", len(aliases()))
+	rep.Set("name_sweep.states_swept", nameStates)
+	rep.Set("name_sweep.calls", nameCalls)
+	rep.Set("name_sweep.calls_by_outcome", nameOutcome)
+	rep.Set("name_sweep.calls_by_method_and_outcome", nameByKind)
+	rep.Set("name_sweep.calls_by_name_class_and_outcome", nameByClass)
+	rep.Set("name_sweep.committed_calls_that_changed_the_tables_by_class", nameChanged)
+	rep.Set("name_sweep.vacuity_guards", nameGuards)
+	rep.Set("name_sweep.rule", fmt.Sprintf("account-name dimension: in every state reached by a history of <= %d (full) / <= %d (proposal) / <= %d (names pass) calls the event 'names' sends every method that takes an account name with every name of the alphabet (%d distinct strings: each form of name_alphabet applied to the address of a, b and c, and the absolute names; duplicates dropped): Transfer (sender a|b|c in the full pass, a|b otherwise; to = the name; amount 1 and the sender's whole available balance), direct $govern_token.Lock / UnLock (initiator a|b; from = the name; lock type ordinary|tdpos; amount 1), TDPoS nominateCandidate / voteCandidate / revokeVote / revokeNominate (initiator a|b; candidate = the name; amount 1; height = tip). $proposal methods take no account name. A call refused by pre-execution counts as rejected; a call it accepts is executed as an ordinary transition on a fresh instance and judged by all oracles. The oracles do not depend on the names the harness uses: conservation sums EVERY record stored under the balance prefix of the governToken bucket (full scan), balance >= lock, lock moves and balance decreases are checked for every stored record, and the state's balance query is compared with every stored record. Nothing is assumed about which spellings denote the same account or are refused. Pass 'names' makes transfers to the alias spellings %v ordinary events, so that later calls (and the sweeps) meet records that exist under alias names. Violation keys of calls with an alias name carry '.alias_name' (conservation broken upwards by such a transfer: c19.transfer_to_alias_name_mints)", nameFull, nameDeep, nameNames, len(aliases()), namesPassTargets))
+	rep.Set("bound", fmt.Sprintf("pass 'full': all call sequences of length <= %d over Init, Transfer(from,to in {a,b,c fresh} incl. to=from; 0,1,500,1000,all,all+1 and, with locks, available / available+1), Propose(a|b), Vote(p,a|b;0,500,all), Thaw(p,a|b), block ticks (timer tasks: CheckVoteResult / Trigger), TDPoS nominate / vote / revokeVote / revokeNominate (1,500,all; revokes naming the tip or the height before it), direct Lock / UnLock, and as last call of every sequence each call of the amount sweep (amount_sweep.rule); pass 'proposal': length <= %d over Init, Transfer a<->b (500, all | available, available+1), Propose, Vote (500, all), Thaw, ticks, amount sweep last; genesis quotas a=%d b=%d; pass 'names': length <= %d over Init, Transfer from a|b to a, b and the alias spellings %v (500, available), Propose(a), nominate(b,500), ticks, both sweeps last; every pass: the name sweep (name_sweep.rule) as last call of the short sequences; merged on the committed content of the governToken, proposal, timer and $tdpos buckets (+ height while timer tasks are pending)", depth, deep, quotaA, quotaB, nmDepth, namesPassTargets))
+	rep.Set("exhaustive", st.Completed && st2.Completed && st3.Completed)
 	rep.Assume("TDPoS kernel methods are the real ones: bcs/consensus/tdpos.NewTdposConsensus (non-BFT) constructed on the world's contract manager and agent.NewLedgerAgent with a stub network (only PeerInfo is used); the chain's own consensus stays 'single' (block production is done by the harness as Miner.packBlock does)")
 	rep.Assume("genesis has nofee=true (gas prices 0, transactions without UTXO inputs are admissible, as Chain.SubmitTx allows on such chains) so that fees do not bound the call sequences")
 	rep.Assume("every committed call is a transaction that passed State.VerifyTx + DoTx and was packed alone into the next block together with the timer transaction of that height; contract.Manager pre-execution as Chain.PreExec")
